@@ -4,7 +4,7 @@
 For every mutation site that bin/automut finds in the files below: make a scratch copy of /repo under /tmp with the
 mutation applied; skip it when it does not build (with and without the verif tag) or when the repository's own suite
 notices it; otherwise run the quick checks that watch that file (flatten files: the combined development pass CALL =
-every oracle of C01..C10 but C07 on one run, then C09, then C07) until one of them reports a violation that the
+every oracle of C01..C10 but C07 on one run, then C09, then C07 for the files where an order is chosen) until one of them reports a violation that the
 unchanged tree does not show. Results go to mutants/auto/results.jsonl (one line per mutant, resumable); the patch of
 every mutant that nothing noticed is kept in mutants/auto/ for triage (equivalent mutant, or a gap in the workloads).
 
@@ -13,17 +13,18 @@ usage: automut.py [-j N] [-stride K] [-offset O] [file ...]
 import json, os, re, subprocess, sys, shutil, threading, hashlib, queue, time
 HERE = os.path.dirname(os.path.dirname(os.path.abspath(__file__)))
 ENV = dict(os.environ, GOFLAGS="-mod=mod", GOPROXY="off", GOSUMDB="off", GOTOOLCHAIN="local")
-FL = ["CALL", "C09", "C07"]
+FL = ["CALL", "C09"]           # files without any ordering logic
+FLS = ["CALL", "C09", "C07"]   # files where an order is chosen (C07 is the slowest check: only there)
 TARGETS = {
     "fixer.go": ["C19"],
     "mixin.go": ["C17", "C18"],
     "schema.go": ["C20", "CALL", "C09"],
-    "internal/flatten/operations/operations.go": FL,
+    "internal/flatten/operations/operations.go": FLS,
     "internal/flatten/normalize/normalize.go": FL,
     "internal/flatten/schutils/flatten_schema.go": FL,
-    "internal/flatten/sortref/keys.go": FL,
-    "internal/flatten/sortref/sort_ref.go": FL,
-    "flatten_name.go": FL,
+    "internal/flatten/sortref/keys.go": FLS,
+    "internal/flatten/sortref/sort_ref.go": FLS,
+    "flatten_name.go": FLS,
     "internal/flatten/replace/replace.go": FL,
     "flatten.go": FL,
     "flatten_options.go": FL,
